@@ -34,8 +34,13 @@ def make_case(rng, i, tier):
             if all(not (cand[0] == x[0] and cand[1] == x[1] and not (cand[2] + cand[3] <= x[2] or cand[2] >= x[2] + x[3])) for x in notes):
                 notes.append(cand)
         extra = []
-        if rng.random() < 0.4:
-            extra.append(["ts", rng.choice([0, 24, 48]), rng.choice([3, 4]), 4])
+        if rng.random() < 0.5:
+            # signatures incl. pairs of equal quotient but different spelling (3/4 vs 6/8, 2/2 vs 4/4, 2/4 vs 4/8)
+            sig = rng.choice([(3, 4), (4, 4), (6, 8), (2, 2), (2, 4), (4, 8), (3, 2), (6, 4), (12, 8), (5, 4)])
+            extra.append(["ts", rng.choice([0, 24, 48, 72]), sig[0], sig[1]])
+            if rng.random() < 0.3:
+                sig2 = rng.choice([(3, 4), (6, 8), (2, 2), (4, 4), (4, 8), (2, 4)])
+                extra.append(["ts", rng.choice([96, 120]), sig2[0], sig2[1]])
         if rng.random() < 0.3:
             extra.append(["ks", rng.choice([0, 24, 48]), rng.choice(["C", "G"])])
         if rng.random() < 0.3:
